@@ -124,7 +124,23 @@ def sweep(ctx, n_trees, n_ops):
             elif kind == "setori":
                 M = N if scalar_only else rng.choice([1, 2, 3, 5])
                 r = R.random(M, rng=nps)
+                how_o = rng.random()
+                if how_o < 0.35 and not scalar_only:
+                    # an assignment that keeps the orientation VALUES but changes the path length (None on a never-rotated collection
+                    # with a longer path, the last entries of the current orientation, the current orientation padded): still an
+                    # assignment — every descendant follows to the new length
+                    cur = target._orientation
+                    M = rng.choice([1, 2, max(1, N - 1), N + 2])
+                    qc = cur.as_quat().reshape(-1, 4)
+                    qn = np.array([qc[i + (N - M)] if M <= N else qc[min(i, N - 1)] for i in range(M)])
+                    r = R.from_quat(qn)
+                    kinds["setori-same-values-other-length"] = kinds.get("setori-same-values-other-length", 0) + 1
+                elif how_o < 0.45 and not scalar_only:
+                    r, M = None, 1
+                    kinds["setori-none"] = kinds.get("setori-none", 0) + 1
                 target.orientation = r
+                if r is None:
+                    r = R.identity(1)
                 idx = [i + (N - M) if M <= N else min(i, N - 1) for i in range(M)]
                 hist.append(("setori", r.as_quat().tolist()))
             else:
